@@ -105,3 +105,91 @@ Print Assumptions C04_hint_roundtrip.
 Print Assumptions C04_hint_fields.
 Print Assumptions C04_hint_rejects_large.
 Print Assumptions C04_hint_injective.
+
+(* The BREACH ARBITER's multi-step retribution flow (BrarFlow.v: contractcourt's
+   retributionInfo slice, updateBreachInfo / convertToSecondLevelRevoke with its
+   in-place mutation and slice compaction, createJusticeTx, restart from the
+   retribution store) against a ghost chain.  [reach l0 s]: ANY interleaving of
+   chain events (the cheater advances an HTLC output to the second level, an
+   output is spent at the first level, a second-level output is spent), of
+   batches of spend reports consumed by the arbiter (any subset of the spends that
+   are on chain, any order, distinct slice indexes) and of restarts, from the
+   retribution l0 built by newRetributionInfo.  (Qualified names: BrarFlow's
+   identifiers are not imported into this file.) *)
+From LV Require Channel.BrarFlow Channel.BrarFlowProofs.
+
+(* Whenever no tracked outpoint is spent on chain, the slice the justice
+   transactions are built from is EXACTLY the set of breached outputs still
+   unspent: an output untouched on chain is tracked as its original entry, an
+   HTLC output the cheater advanced is tracked as a second-level entry with the
+   amount of the second-level output, a spent output is not tracked; no output
+   twice. *)
+Theorem C04_rebuild_covers_unspent_at_current_level : forall l0 s,
+  BrarFlow.wf0 l0 -> BrarFlow.reach l0 s -> BrarFlow.quiescent s ->
+  NoDup (map BrarFlow.b_id (BrarFlow.tracked s)) /\
+  (forall o, In o (BrarFlow.tracked s) ->
+     (In o l0 /\ BrarFlow.ch s (BrarFlow.b_id o) = BrarFlow.StFirst) \/
+     (exists a, o = BrarFlow.mkB (BrarFlow.b_id o) BrarFlow.KSecond a /\
+                BrarFlow.htlc_id l0 (BrarFlow.b_id o) /\
+                BrarFlow.ch s (BrarFlow.b_id o) = BrarFlow.StSecond a)) /\
+  (forall o0, In o0 l0 ->
+     match BrarFlow.ch s (BrarFlow.b_id o0) with
+     | BrarFlow.StFirst => In o0 (BrarFlow.tracked s)
+     | BrarFlow.StSecond a =>
+         In (BrarFlow.mkB (BrarFlow.b_id o0) BrarFlow.KSecond a) (BrarFlow.tracked s)
+     | _ => forall o, In o (BrarFlow.tracked s) -> BrarFlow.b_id o <> BrarFlow.b_id o0
+     end).
+Proof. exact BrarFlowProofs.quiescent_exact. Qed.
+
+(* ... and every input of the rebuilt spend-all transaction carries the witness
+   layout of the output's CURRENT level on chain and signs for the amount of the
+   output that is there now: first level = the layout and amount of the original
+   entry, second level = the second-level revoke layout and the amount of the
+   cheater's second-level output. *)
+Theorem C04_rebuild_witness_follows_current_level : forall l0 s,
+  BrarFlow.wf0 l0 -> BrarFlow.reach l0 s -> BrarFlow.quiescent s ->
+  forall j, In j (BrarFlow.v_all (BrarFlow.build (BrarFlow.tracked s))) ->
+    match BrarFlow.ch s (BrarFlow.j_id j) with
+    | BrarFlow.StFirst => BrarFlow.j_second j = false /\
+        exists o0, In o0 l0 /\ BrarFlow.b_id o0 = BrarFlow.j_id j /\
+                   BrarFlow.j_w j = BrarFlow.wk (BrarFlow.b_kind o0) /\
+                   BrarFlow.j_amt j = BrarFlow.b_amt o0
+    | BrarFlow.StSecond a => BrarFlow.j_second j = true /\
+        BrarFlow.j_w j = BrarFlow.WSecondRevoke /\ BrarFlow.j_amt j = a
+    | _ => False
+    end.
+Proof. exact BrarFlowProofs.quiescent_witness_current. Qed.
+
+(* At ANY time (also while spends are still being consumed, also right after a
+   restart) every signed input refers to an output that exists or existed on
+   chain with exactly that level, layout and amount. *)
+Theorem C04_rebuild_signs_existing_outputs : forall l0 s,
+  BrarFlow.wf0 l0 -> BrarFlow.reach l0 s ->
+  forall j, In j (BrarFlow.v_all (BrarFlow.build (BrarFlow.tracked s))) ->
+    (BrarFlow.j_second j = false /\
+     exists o0, In o0 l0 /\ BrarFlow.b_id o0 = BrarFlow.j_id j /\
+                BrarFlow.j_w j = BrarFlow.wk (BrarFlow.b_kind o0) /\
+                BrarFlow.j_amt j = BrarFlow.b_amt o0) \/
+    (BrarFlow.j_second j = true /\ BrarFlow.j_w j = BrarFlow.WSecondRevoke /\
+     BrarFlow.htlc_id l0 (BrarFlow.j_id j) /\
+     (BrarFlow.ch s (BrarFlow.j_id j) = BrarFlow.StSecond (BrarFlow.j_amt j) \/
+      BrarFlow.ch s (BrarFlow.j_id j) = BrarFlow.StGoneSecond (BrarFlow.j_amt j))).
+Proof. exact BrarFlowProofs.build_inputs_exist. Qed.
+
+(* The split variants (commit outputs / first-level HTLC outputs / one per
+   second-level output) partition the spend-all transaction. *)
+Theorem C04_justice_variants_partition : forall l,
+  Permutation.Permutation (BrarFlow.v_all (BrarFlow.build l))
+    (BrarFlow.v_commit (BrarFlow.build l) ++ BrarFlow.v_htlc (BrarFlow.build l) ++
+     concat (BrarFlow.v_second (BrarFlow.build l))) /\
+  Forall (fun v => exists j, v = [j] /\ BrarFlow.j_second j = true /\
+                             BrarFlow.j_w j = BrarFlow.WSecondRevoke)
+         (BrarFlow.v_second (BrarFlow.build l)) /\
+  Forall (fun j => BrarFlow.j_second j = false)
+         (BrarFlow.v_commit (BrarFlow.build l) ++ BrarFlow.v_htlc (BrarFlow.build l)).
+Proof. exact BrarFlowProofs.build_partition. Qed.
+
+Print Assumptions C04_rebuild_covers_unspent_at_current_level.
+Print Assumptions C04_rebuild_witness_follows_current_level.
+Print Assumptions C04_rebuild_signs_existing_outputs.
+Print Assumptions C04_justice_variants_partition.
